@@ -261,6 +261,24 @@ void run() {
       if (!ok)
         vf::viol(std::string("compressible-from-viscosity-alone|") + vf::TName<T>::value, "{\"mu\":" + vf::jstr(vf::hex(mu)) + ",\"bulk_viscosity_reported\":" + vf::jstr(vf::hex(b)) + "}");
     }
+  // call histories across model objects: every ordered pair of a small set of fluids (equal shear with different bulk viscosity,
+  // bulk equal to shear, bulk zero, another shear viscosity) evaluated back to back in each argument precision
+  {
+    const T sp[][2] = {{(T)1.5, (T)0}, {(T)1.5, (T)0.5}, {(T)1.5, (T)1.5}, {(T)3, (T)1.5}, {(T)3, (T)0}, {(T)0.75, (T)1}};
+    for (const auto& a : sp)
+      for (const auto& b : sp)
+        for (const auto* m : {&a, &b}) {
+          const CNF cmp(DynamicViscosity<T>((*m)[0], V), BulkDynamicViscosity<T>((*m)[1], V));
+          maps<CNF, T, float>("CompressibleNewtonianFluid", cmp, (*m)[0], (*m)[1]);
+          maps<CNF, T, double>("CompressibleNewtonianFluid", cmp, (*m)[0], (*m)[1]);
+          maps<CNF, T, long double>("CompressibleNewtonianFluid", cmp, (*m)[0], (*m)[1]);
+          const INF inc{DynamicViscosity<T>((*m)[0], V)};
+          maps<INF, T, float>("IncompressibleNewtonianFluid", inc, (*m)[0], (T)0);
+          maps<INF, T, double>("IncompressibleNewtonianFluid", inc, (*m)[0], (T)0);
+          maps<INF, T, long double>("IncompressibleNewtonianFluid", inc, (*m)[0], (T)0);
+          vf::stat("materials");
+        }
+  }
   if (std::is_same_v<T, double>) {
     const CNF m(DynamicViscosity<T>(1.5, V), BulkDynamicViscosity<T>(0.25, V));
     const PhQ::StrainRate<T> D(SymmetricDyad<T>(1, 2, 3, 4, 5, 6), Unit::Frequency::Hertz);
